@@ -73,6 +73,7 @@ with stage list `ssIn` recording `evsIn`. -/
 structure FoldFacts (W : World) (miss : Bool) (n : Name) (params : Params) (fds : List FDir)
     (child : QNode) (vid : Vid) (L : List Ev) (f : Fold) (ssIn : List Stage) (evsIn : List Ev) :
     Prop where
+  lim : W.lim = false
   from_ : f.fromVid = vid
   fromV : (W.comp.vertex? vid).isSome
   inComp : W.comp.folds.any (·.eid == f.eid) = true
